@@ -159,20 +159,6 @@ pub proof fn lemma_tua_fn<AB: ArrivalBound + ?Sized>(c: int, ab: &AB)
 }
 
 
-// ---- glue between exec closures and the evaluator
-pub open spec fn rta_is<F: Fn(Offset) -> SearchResult>(f: &F, g: spec_fn(int) -> Option<int>, max: int) -> bool {
-    forall |a: Offset, r: SearchResult| a.v() < max && #[trigger] f.ensures((a,), r) ==> res_view(r) == g(a.v())
-}
-
-/// R10 (ASSUMED, bounded-checked by Kani on the real functions): the iterator tail
-///   `demand::step_offsets(rb).take_while(|A| *A < max_offset)` mapped through `rta` and folded by
-///   `fixed_point::max_response_time` returns the error-first maximum of `rta` over the step offsets below max_offset.
-#[verifier::external_body]
-pub fn vf_tail_steps_below<RB: RequestBound + ?Sized, F: Fn(Offset) -> SearchResult>(rb: &RB, max_offset: Offset, rta: F) -> (res: SearchResult)
-    requires rb.wf(), forall |a: Offset| a.v() < max_offset.v() && is_step(rbf_fn(rb), a.v()) ==> #[trigger] rta.requires((a,))
-    ensures forall |g: spec_fn(int) -> Option<int>| #[trigger] rta_is(&rta, g, max_offset.v()) ==> res_view(res) == fold_steps(rbf_fn(rb), g, max_offset.v())
-{ unimplemented!() }
-
 // ---- C17: monotonicity of the evaluator (a diverging search is the top element)
 pub open spec fn opt_le(a: Option<int>, b: Option<int>) -> bool {
     match (a, b) { (_, None) => true, (None, Some(_)) => false, (Some(x), Some(y)) => x <= y }
